@@ -76,7 +76,12 @@ class DualWsx:
         self.mon.cell((self.kind, op, ea.status))
         fa = {k: v for k, v in ea.f.items() if k != "msg"}
         fb = {k: v for k, v in eb.f.items() if k != "msg"}
-        if ea.status == "bad" or eb.status == "bad":
+        if op == "noise":
+            # calls of other modules draw an unbounded amount of real randomness (cards, seeds): only panic-or-not is compared
+            if (ea.status == "panic") != (eb.status == "panic"):
+                self.mon.violation("c19:noise:%s_vs_%s" % (ea.status, eb.status), "back ends disagree on whether an other-module call panics",
+                                   {"engine": "wsx2", "kind": "raw", "commands": self.context[-6:]})
+        elif ea.status == "bad" or eb.status == "bad":
             # follow-on of an earlier divergence (a handle or reference that exists on one side only)
             self.mon.count("events_after_a_divergence_not_compared")
         elif ea.status != eb.status or fa != fb or ea.rng != eb.rng:
